@@ -17,6 +17,8 @@ FORMS = {
     "map_literal_key_only": (['tm = map[int, str] {x: "s"}', 'tk = tm.keys()', 'acc = tk[0]'], lambda x, d: ([], x)),
     # ("map_key": `tm[x] = d` with a captured key is rejected by the compiler's type check — observed, outside this property)
     "index": (["acc = tbl[x % 3]"], lambda x, d: ([], [5, 6, 7][x % 3])),
+    # a counting loop whose binding has the captured variable's name: after the loop the name denotes the captured variable again
+    "loop_binding_same_name": (["acc = 0", "from 0 to 3, x {", "\tacc = acc + x", "}", "acc = acc * 100 + x"], lambda x, d: ([], 300 + x)),
     "index_write_value": (["tl: [int...] = [d]", "tl[0] = x", "acc = tl[0]"], lambda x, d: ([], x)),
     "if_cond": (["acc = 0", "if x > 4 {", "\tacc = 1", "} else {", "\tacc = 2", "}"], lambda x, d: ([], 1 if x > 4 else 2)),
     "else_if_cond": (["acc = 0", "if d > 90 {", "\tacc = 1", "} else if x > 4 {", "\tacc = 2", "} else {", "\tacc = 3", "}"],
